@@ -132,6 +132,22 @@ class THet(Ty):
         return "(" + " × ".join([TList(self.elem).lean()] + [t.lean() for t in self.tails]) + ")"
 
 
+class TBuilder(Ty):
+    """an object that is only constructed and then sent commands (`D = DirectedGraph(n, name)`, `D.add_edge(u, v)`):
+    the constructor arguments and the log of the commands, in order"""
+    def __init__(self, cls, ctor, cmd, cmd_types):
+        self.cls, self.ctor, self.cmd, self.cmd_types = cls, list(ctor), cmd, list(cmd_types)
+
+    def ctor_ty(self):
+        return TTuple(self.ctor) if len(self.ctor) != 1 else self.ctor[0]
+
+    def cmd_ty(self):
+        return TTuple(self.cmd_types) if len(self.cmd_types) != 1 else self.cmd_types[0]
+
+    def lean(self):
+        return "({} × (List {}))".format(self.ctor_ty().lean(), self.cmd_ty().lean())
+
+
 class TMaybe(Ty):
     """a local variable that is assigned on some paths only (reading it elsewhere is UnboundLocalError)"""
     def __init__(self, elem):
